@@ -159,6 +159,20 @@ def printE : E → List Tok
       ++ [tokOfBin op]
       ++ (if rightNeedsParentheses op r then [.lp] ++ printE r ++ [.rp] else printE r)
 
+def isNegnum : E → Bool
+  | .negnum _ => true
+  | _ => false
+
+/-- H₂ (finding F23): no negative number literal as the left operand of `^`, nor directly under
+a type assertion. Such nodes only arise through the library API / the data serializer. -/
+def H2 : E → Bool
+  | .atom _ | .negnum _ => true
+  | .paren e => H2 e
+  | .ifexp c a b => H2 c && H2 a && H2 b
+  | .cast e _ => H2 e && !isNegnum e
+  | .un _ x => H2 x
+  | .bin o l r => H2 l && H2 r && !(o == .pow && isNegnum l)
+
 /-! ### character level: utils.rs -/
 
 def isDigit (c : Nat) : Bool := 48 ≤ c && c ≤ 57
